@@ -37,7 +37,7 @@ QUERY_TIMEOUT_MS = {"quick": 30000, "thorough": 60000}
 
 OPS = ["pre:A", "pre:B", "pre:X_missing_prerequisite",
        "fit", "fit:range_x", "fit:weight_cp", "fit:gcf_k", "fit:segment-name", "fit:model_key",
-       "fit:params_initial", "fit:method", "fit:preprocessing-B2", "fit:unknown-key", "fit:unknown-model",
+       "fit:params_initial", "fit:params_initial-bound", "fit:params_initial-vary", "fit:method", "fit:preprocessing-B2", "fit:unknown-key", "fit:unknown-model",
        "set:weight_cp", "set:range_x", "set:unknown-key", "rate", "emodulus-mindelta"]
 
 
@@ -93,6 +93,16 @@ def do_op(s, idnt, op, v):
         elif op == "fit:params_initial":
             P = s.params()
             P["E"].value = v.E
+            idnt.fit_model(params_initial=P, **{k: x for k, x in _fit_defaults(s, idnt).items()
+                                                 if k != "params_initial"})
+        elif op == "fit:params_initial-bound":
+            P = s.params()
+            P["E"].set(min=v.E)      # same value, different lower bound
+            idnt.fit_model(params_initial=P, **{k: x for k, x in _fit_defaults(s, idnt).items()
+                                                 if k != "params_initial"})
+        elif op == "fit:params_initial-vary":
+            P = s.params()
+            P["baseline"].vary = True
             idnt.fit_model(params_initial=P, **{k: x for k, x in _fit_defaults(s, idnt).items()
                                                  if k != "params_initial"})
         elif op == "fit:method":
@@ -276,6 +286,12 @@ def do(idnt, op, v):
                            **{{k: x for k, x in defaults(idnt).items() if k not in ("model_key", "params_initial")}})
         elif op == "fit:params_initial":
             P = params(); P["E"].value = v["E"]
+            idnt.fit_model(params_initial=P, **{{k: x for k, x in defaults(idnt).items() if k != "params_initial"}})
+        elif op == "fit:params_initial-bound":
+            P = params(); P["E"].set(min=min(v["E"], 2999.0))
+            idnt.fit_model(params_initial=P, **{{k: x for k, x in defaults(idnt).items() if k != "params_initial"}})
+        elif op == "fit:params_initial-vary":
+            P = params(); P["baseline"].vary = True
             idnt.fit_model(params_initial=P, **{{k: x for k, x in defaults(idnt).items() if k != "params_initial"}})
         elif op == "fit:method": idnt.fit_model(method="nelder", **defaults(idnt))
         elif op == "fit:preprocessing-B2":
